@@ -185,7 +185,7 @@ int main(int argc, char** argv)
     r.axis("l1_l2", jstr("(0,0),(1,0),(0,1e6),(1,1)"));
     r.axis("scaling", jstr("none, mean, minmax, standard"));
     r.axis("batch", jstr("1,2,3,N,N+1,10000"));
-    r.axis("cached", jstr("off,on"));
+    r.axis("cached", jstr("off | on | on, cached while another scaling was selected (linear stage)"));
     r.axis("x", jstr("zeros, ones, signed ramp"));
 
     for_each_case(lat, r, stage, [&](const uint64_t index, const std::vector<uint64_t>& d) {
@@ -226,12 +226,20 @@ int main(int argc, char** argv)
                 {
                     for (const auto batch : batches)
                     {
-                        for (int cached = 0; cached < 2; ++cached)
+                        for (int cached = 0; cached < 3; ++cached)
                         {
                             auto iterator = flatten_iterator_t{dataset, samples};
                             iterator.batch(batch);
+                            if (cached == 2)
+                            {
+                                // the values were cached while another scaling was selected: the objective is still the one of
+                                // the scaling selected when it is evaluated
+                                iterator.scaling(scaling == scaling_type::none ? scaling_type::standard : scaling_type::none);
+                                iterator.cache_flatten(1 << 20);
+                                iterator.cache_targets(1 << 20);
+                            }
                             iterator.scaling(scaling);
-                            if (cached != 0)
+                            if (cached == 1)
                             {
                                 iterator.cache_flatten(1 << 20);
                                 iterator.cache_targets(1 << 20);
